@@ -3,7 +3,74 @@ use crate::{
   dds::qos::{policy::*, QosPolicies, QosPolicyId},
   structure::duration::Duration,
 };
-use super::util::{self, Args, CaseOut, Rng};
+use crate::{
+  dds::statusevents::{DataReaderStatus, DataWriterStatus},
+  rtps::{rtps_reader_proxy::RtpsReaderProxy, rtps_writer_proxy::RtpsWriterProxy},
+  structure::guid::{EntityId, EntityKind, GuidPrefix, GUID},
+};
+use super::{
+  mk,
+  util::{self, Args, CaseOut, Rng},
+};
+
+/// The two call sites of the compatibility check: a real rtps::Writer is told about a remote
+/// reader (Writer::update_reader_proxy) and a real rtps::Reader about a remote writer
+/// (Reader::update_writer_proxy); the verdict each side reaches is read from its status events.
+fn call_sites(off: &QosPolicies, req: &QosPolicies) -> (String, String) {
+  let wg = GUID::new(
+    GuidPrefix::new(&[1; 12]),
+    EntityId::new([0, 0, 1], EntityKind::WRITER_WITH_KEY_USER_DEFINED),
+  );
+  let rg = GUID::new(
+    GuidPrefix::new(&[2; 12]),
+    EntityId::new([0, 0, 2], EntityKind::READER_WITH_KEY_USER_DEFINED),
+  );
+  let mut wk = mk::make_writer(wg, "c10_topic", off.clone());
+  let mut rk = mk::make_reader(rg, "c10_topic", req.clone());
+  wk.writer
+    .update_reader_proxy(&RtpsReaderProxy::new(rg, req.clone(), false), req);
+  rk.reader
+    .update_writer_proxy(RtpsWriterProxy::new(wg, vec![], vec![], EntityId::UNKNOWN), off);
+  let mut wside = "SSilent".to_string();
+  while let Ok(e) = wk.status.try_recv() {
+    match e {
+      DataWriterStatus::PublicationMatched { current, .. } if current.count() > 0 => {
+        wside = "SMatched".into()
+      }
+      DataWriterStatus::OfferedIncompatibleQos { last_policy_id, .. } => {
+        wside = format!("(SIncompatible {})", coq_policy(last_policy_id))
+      }
+      _ => {}
+    }
+  }
+  let mut rside = "SSilent".to_string();
+  while let Ok(e) = rk.status.try_recv() {
+    match e {
+      DataReaderStatus::SubscriptionMatched { current, .. } if current.count() > 0 => {
+        rside = "SMatched".into()
+      }
+      DataReaderStatus::RequestedIncompatibleQos { last_policy_id, .. } => {
+        rside = format!("(SIncompatible {})", coq_policy(last_policy_id))
+      }
+      _ => {}
+    }
+  }
+  (wside, rside)
+}
+
+fn coq_policy(p: QosPolicyId) -> String {
+  match p {
+    QosPolicyId::Durability => "PDurability".into(),
+    QosPolicyId::Presentation => "PPresentation".into(),
+    QosPolicyId::Deadline => "PDeadline".into(),
+    QosPolicyId::LatencyBudget => "PLatencyBudget".into(),
+    QosPolicyId::Ownership => "POwnership".into(),
+    QosPolicyId::Liveliness => "PLiveliness".into(),
+    QosPolicyId::Reliability => "PReliability".into(),
+    QosPolicyId::DestinationOrder => "PDestinationOrder".into(),
+    other => format!("(POther (* {:?} *))", other),
+  }
+}
 
 fn gen_duration(r: &mut Rng) -> Duration {
   let grid: [i64; 8] = [
@@ -103,7 +170,7 @@ fn gen_qos(r: &mut Rng, density: u64) -> QosPolicies {
   q
 }
 
-fn coq_qos(q: &QosPolicies) -> String {
+pub fn coq_qos(q: &QosPolicies) -> String {
   let d = q.durability.map(|d| {
     match d {
       Durability::Volatile => "Volatile",
@@ -168,16 +235,7 @@ fn coq_qos(q: &QosPolicies) -> String {
 fn coq_verdict(v: Option<QosPolicyId>) -> String {
   match v {
     None => "None".to_string(),
-    Some(QosPolicyId::Durability) => "(Some PDurability)".into(),
-    Some(QosPolicyId::Presentation) => "(Some PPresentation)".into(),
-    Some(QosPolicyId::Deadline) => "(Some PDeadline)".into(),
-    Some(QosPolicyId::LatencyBudget) => "(Some PLatencyBudget)".into(),
-    Some(QosPolicyId::Ownership) => "(Some POwnership)".into(),
-    Some(QosPolicyId::Liveliness) => "(Some PLiveliness)".into(),
-    Some(QosPolicyId::Reliability) => "(Some PReliability)".into(),
-    Some(QosPolicyId::DestinationOrder) => "(Some PDestinationOrder)".into(),
-    // not expressible in the model: any such answer is reported as a disagreement
-    Some(other) => format!("(Some (* {:?} *) PDurability)", other),
+    Some(p) => format!("(Some {})", coq_policy(p)),
   }
 }
 
@@ -230,10 +288,15 @@ pub fn run(args: &Args) -> i32 {
     "obs",
   );
   let mut idx = 0usize;
-  let mut emit = |out: &mut CaseOut, idx: usize, off: &QosPolicies, req: &QosPolicies| {
+  let mut emit = |out: &mut CaseOut, idx: usize, off: &QosPolicies, req: &QosPolicies, sites: bool| {
     let v = off.compliance_failure_wrt(req);
+    let (wside, rside) = if sites {
+      call_sites(off, req)
+    } else {
+      ("SNotRun".to_string(), "SNotRun".to_string())
+    };
     let both = |a: bool, c: bool| a && c;
-    let mut tags = vec![format!("verdict:{:?}", v)];
+    let mut tags = vec![format!("verdict:{:?}", v), format!("call_sites_run:{}", sites)];
     let mut shared = 0;
     for (name, a, c) in [
       ("durability", off.durability.is_some(), req.durability.is_some()),
@@ -254,14 +317,14 @@ pub fn run(args: &Args) -> i32 {
     out.push(
       idx,
       format!("({}, {})", coq_qos(off), coq_qos(req)),
-      coq_verdict(v),
+      format!("(Build_obs {} {} {})", coq_verdict(v), wside, rside),
       &tags,
       shared >= 1, // non-trivial: at least one policy is specified by both sides
     );
   };
   for (off, req) in corpus() {
     if args.only.map_or(true, |o| o == idx) {
-      emit(&mut out, idx, &off, &req);
+      emit(&mut out, idx, &off, &req, true);
     }
     idx += 1;
   }
@@ -284,7 +347,8 @@ pub fn run(args: &Args) -> i32 {
           _ => req.ownership = Some(Ownership::Exclusive { strength: 77 }),
         }
       }
-      emit(&mut out, idx, &off, &req);
+      let sites = idx % 5 == 0;
+      emit(&mut out, idx, &off, &req, sites);
     }
     idx += 1;
   }
